@@ -165,10 +165,10 @@ theorem child_pub_eq {m : XKey} {K : C.Pt} {i : Nat} (hp : m.isPrivate = false) 
 
 /-! ### the refinement step: Child computes CKD (outside the degenerate HMAC outputs) -/
 
-theorem child_refines {m : XKey} {x : Spec.Bip32.XKey C.Pt} {i : Nat} (hr : Rep C m x)
+theorem child_refines {m : XKey} {x : Spec.Bip32.XKey C.Pt} {i : Nat} (hr : Rep C m x) (hi : i < 2 ^ 32)
     (hnd : ¬ Degenerate C H x i) :
     RelE (Rep C) (child C H m i) (ckd C H x i) := by
-  obtain ⟨hv, hd, hdl, hfp, hcn, hcc, hkey⟩ := hr
+  obtain ⟨hv, hd, hdl, hfp, hcn, hcc, ⟨hwv, hwf, hwn, hwc⟩, hkey⟩ := hr
   cases hxk : x.key with
   | priv k =>
     rw [hxk] at hkey
@@ -188,7 +188,9 @@ theorem child_refines {m : XKey} {x : Spec.Bip32.XKey C.Pt} {i : Nat} (hr : Rep 
         have hs : ¬ (parse256 ((Ipriv C H k x.chain i).take 32) + k) % C.n = 0 := fun h => hnd (Or.inr h)
         simp only [hil, h0, hs, or_self, if_false, RelE, Rep]
         simp only [true_and]
-        exact ⟨hv, by omega, rfl, by omega, Nat.mod_lt _ LC.n_pos⟩
+        have hIlen : (Ipriv C H k x.chain i).length = 64 := by unfold Ipriv; split <;> exact LH.hmac_len _ _
+        exact ⟨hv, by omega, rfl, ⟨hwv, by simp [fingerprint, HashOps.hash160, LH.rmd_len], hi, by simp [hIlen]⟩,
+          by omega, Nat.mod_lt _ LC.n_pos⟩
   | pub K =>
     rw [hxk] at hkey
     obtain ⟨hp, hkb, hparse⟩ := hkey
@@ -212,7 +214,8 @@ theorem child_refines {m : XKey} {x : Spec.Bip32.XKey C.Pt} {i : Nat} (hr : Rep 
             LC.xyZero_mulG _ (by omega) (by omega)
           simp only [hil, h0, hinf, hxy, or_self, Bool.false_eq_true, if_false, RelE, Rep]
           simp only [true_and]
-          refine ⟨hv, by omega, rfl, ?_⟩
+          have hIlen : (Ipub C H K x.chain i).length = 64 := LH.hmac_len _ _
+          refine ⟨hv, by omega, ⟨hwv, by simp [fingerprint, HashOps.hash160, LH.rmd_len], hi, by simp [hIlen]⟩, rfl, ?_⟩
           apply LC.parse_enc
           simpa [point] using hinf
 
